@@ -4,7 +4,7 @@ open Low.Driver
 partial def loop (hin hout : IO.FS.Stream) : IO Unit := do
   let line ← hin.getLine
   if line.isEmpty then return ()
-  let l := (line.trimAsciiEnd).toString
+  let l := String.ofList (line.toList.reverse.dropWhile (fun c => c == '\n' || c == '\r')).reverse
   if l.isEmpty || l.startsWith "#" then loop hin hout else
   hout.putStrLn (answer l)
   loop hin hout
